@@ -811,7 +811,7 @@ func (v *Validator) typeOfHas(env *requestEnv, n ast.NodeTypeHas, caps capabilit
 	resultType := v.hasResultType(t, n.Value)
 
 	if _, isBool := resultType.(typeBool); isBool {
-		if varName := exprVarName(n.Arg); varName != "" {
+		if varName := exprCapName(n.Arg); varName != "" {
 			if caps.has(capability{varName: varName, attr: n.Value}) {
 				resultType = typeTrue{}
 			}
@@ -819,7 +819,7 @@ func (v *Validator) typeOfHas(env *requestEnv, n ast.NodeTypeHas, caps capabilit
 	}
 
 	newCaps := caps
-	if varName := exprVarName(n.Arg); varName != "" {
+	if varName := exprCapName(n.Arg); varName != "" {
 		newCaps = caps.add(capability{varName: varName, attr: n.Value})
 	}
 
@@ -884,7 +884,7 @@ func (v *Validator) typeOfAccess(env *requestEnv, n ast.NodeTypeAccess, caps cap
 
 	// Check if the attribute is optional and requires a `has` guard
 	if !attrType.required {
-		varName := exprVarName(n.Arg)
+		varName := exprCapName(n.Arg)
 		if varName == "" || !caps.has(capability{varName: varName, attr: n.Value}) {
 			errs = append(errs, v.unsafeOptionalAccessError(env, t, n.Value, exprVarName(n.Arg)))
 		}
@@ -1040,10 +1040,10 @@ func (v *Validator) typeOfHasTag(env *requestEnv, n ast.NodeTypeHasTag, caps cap
 	}
 
 	newCaps := caps
-	if varName := exprVarName(n.Left); varName != "" {
+	if varName := exprCapName(n.Left); varName != "" {
 		tagKey := tagCapabilityKey(n.Right)
 		if tagKey != "" {
-			newCaps = caps.add(capability{varName: varName, attr: types.String("__tag:" + tagKey)})
+			newCaps = caps.add(capability{varName: varName, attr: types.String(tagKey), tag: true})
 		}
 	}
 
@@ -1090,9 +1090,9 @@ func (v *Validator) typeOfGetTag(env *requestEnv, n ast.NodeTypeGetTag, caps cap
 		}
 	}
 
-	varName := exprVarName(n.Left)
+	varName := exprCapName(n.Left)
 	tagKey := tagCapabilityKey(n.Right)
-	hasCapability := varName != "" && tagKey != "" && caps.has(capability{varName: varName, attr: types.String("__tag:" + tagKey)})
+	hasCapability := varName != "" && tagKey != "" && caps.has(capability{varName: varName, attr: types.String(tagKey), tag: true})
 
 	if hasCapability {
 		// Capability is only set by hasTag when entity supports tags
@@ -1390,6 +1390,20 @@ func exprVarName(n ast.IsNode) types.String {
 	if nd, ok := n.(ast.NodeTypeAccess); ok {
 		if parent := exprVarName(nd.Arg); parent != "" {
 			return parent + "." + nd.Value
+		}
+	}
+	return ""
+}
+
+// exprCapName is the identity of an access path in the capability set. Unlike exprVarName (used in messages) it
+// cannot confuse the attribute "a.b" with the path a . b: every step carries the length of its attribute name.
+func exprCapName(n ast.IsNode) types.String {
+	if nd, ok := n.(ast.NodeTypeVariable); ok {
+		return nd.Name
+	}
+	if nd, ok := n.(ast.NodeTypeAccess); ok {
+		if parent := exprCapName(nd.Arg); parent != "" {
+			return types.String(fmt.Sprintf("%s.%d:%s", parent, len(nd.Value), nd.Value))
 		}
 	}
 	return ""
